@@ -8,6 +8,8 @@
 //!
 //! case: (bl API OP CTX RX CAP PREFILL TIMEOUT_MS)
 //!   API ::= sync | tokio | async   OP ::= flush | send   CTX ::= plain | mt | ct   RX ::= live | stalled | gone | hangup
+//!   TIMEOUT_MS may also be `max` (Duration::MAX) or `maxsecs` (u64::MAX seconds). RX = late: the receiver is started
+//!   30 ms after the call, so the call has to wait and then succeeds because the receiver drains the queue.
 //!   API = async awaits `emit_batcher::tokio::{flush, send}` inside a current-thread runtime (CTX = ct); `flush` under
 //!   a paused clock (virtual time). RX = hangup (async flush only): the receiver takes the batch and the watcher,
 //!   never finishes, and is torn down after 10 ms — the oneshot hangs up and the flush resolves `true`.
@@ -96,6 +98,9 @@ enum Rx {
     Live,
     Stalled,
     Gone,
+    /// stalled when the call starts (so the call genuinely has to wait), started 30 ms later: it drains the queue
+    /// and the call succeeds — whatever the timeout, including `Duration::MAX`
+    Late,
     /// (async flush only) the receiver takes the batch together with the flush watcher, never finishes it, and is
     /// torn down 10 ms later: the oneshot hangs up
     Hangup,
@@ -108,8 +113,19 @@ struct Case {
     rx: Rx,
     cap: usize,
     prefill: usize,
-    timeout_ms: u64,
+    /// `max` = Duration::MAX, `maxsecs` = Duration::from_secs(u64::MAX), otherwise milliseconds
+    timeout: Duration,
 }
+
+fn parse_timeout(s: &Sexp) -> Option<Duration> {
+    Some(match s.as_atom()? {
+        "max" => Duration::MAX,
+        "maxsecs" => Duration::from_secs(u64::MAX),
+        _ => Duration::from_millis(s.as_u64()?),
+    })
+}
+
+const LATE: Duration = Duration::from_millis(30);
 
 fn parse(line: &str) -> Option<Case> {
     let s = Sexp::parse(line)?;
@@ -143,12 +159,13 @@ fn parse(line: &str) -> Option<Case> {
             "live" => Rx::Live,
             "stalled" => Rx::Stalled,
             "gone" => Rx::Gone,
+            "late" => Rx::Late,
             "hangup" => Rx::Hangup,
             _ => return None,
         },
         cap,
         prefill: a[5].as_usize()?,
-        timeout_ms: a[6].as_u64()?,
+        timeout: parse_timeout(&a[6])?,
     })
 }
 
@@ -197,17 +214,28 @@ fn run_blocking(line: &str) -> String {
         sender.send(i as u64 + 1);
     }
     let sender = Arc::new(sender);
-    let timeout = Duration::from_millis(c.timeout_ms);
+    let timeout = c.timeout;
     let (api, op) = (c.api, c.op);
-    if c.rx == Rx::Live {
+    if c.rx == Rx::Live || c.rx == Rx::Late {
         let receiver = receiver.take().unwrap();
-        let _detached = match api {
-            Api::Sync => emit_batcher::sync::spawn("hbatcher_rx", receiver, |_batch: Vec<u64>| Ok(())).ok(),
-            Api::Tokio => {
-                emit_batcher::tokio::spawn("hbatcher_rx", receiver, |_batch: Vec<u64>| async move { Ok(()) }).ok()
-            }
-            Api::Async => unreachable!(),
+        let start = move || {
+            let _detached = match api {
+                Api::Sync => emit_batcher::sync::spawn("hbatcher_rx", receiver, |_batch: Vec<u64>| Ok(())).ok(),
+                Api::Tokio => {
+                    emit_batcher::tokio::spawn("hbatcher_rx", receiver, |_batch: Vec<u64>| async move { Ok(()) })
+                        .ok()
+                }
+                Api::Async => unreachable!(),
+            };
         };
+        if c.rx == Rx::Live {
+            start();
+        } else {
+            std::thread::spawn(move || {
+                std::thread::sleep(LATE);
+                start();
+            });
+        }
     }
     let started = Instant::now();
     let out = {
@@ -238,7 +266,7 @@ fn run_blocking(line: &str) -> String {
     if out == Out::Panic {
         fails.push("c08-panic");
     }
-    if wall > timeout + SLACK {
+    if wall > timeout.saturating_add(SLACK) || (c.rx == Rx::Late && wall > LATE + SLACK) {
         fails.push("c08-timeout");
     }
     if out == Out::Flush(true) && c.rx == Rx::Stalled && c.prefill > 0 {
@@ -246,6 +274,9 @@ fn run_blocking(line: &str) -> String {
     }
     if out == Out::SendErr(None) && c.rx != Rx::Gone {
         fails.push("c09-handback");
+    }
+    if out == Out::Panic && c.op == OpK::Send {
+        fails.push("c09-handback"); // the item was neither enqueued nor handed back
     }
     if let Out::SendErr(Some(x)) = out {
         if x != 999 {
@@ -277,7 +308,7 @@ fn run_async(c: &Case) -> String {
     let paused = c.op == OpK::Flush;
     let rt = tokio::runtime::Builder::new_current_thread().enable_all().start_paused(paused).build().unwrap();
     let (cap, prefill, rxk, op) = (c.cap, c.prefill, c.rx, c.op);
-    let timeout = Duration::from_millis(c.timeout_ms);
+    let timeout = c.timeout;
     let res = hcommon::catch(|| {
         rt.block_on(async move {
             let (sender, receiver): (Sender<Vec<u64>>, Receiver<Vec<u64>>) = emit_batcher::bounded(cap);
@@ -292,6 +323,13 @@ fn run_async(c: &Case) -> String {
                 Rx::Live => {
                     let r = receiver.take().unwrap();
                     tokio::spawn(r.exec(|d| tokio::time::sleep(d), |_b: Vec<u64>| async move { Ok(()) }));
+                }
+                Rx::Late => {
+                    let r = receiver.take().unwrap();
+                    tokio::spawn(async move {
+                        tokio::time::sleep(LATE).await;
+                        r.exec(|d| tokio::time::sleep(d), |_b: Vec<u64>| async move { Ok(()) }).await
+                    });
                 }
                 Rx::Hangup => {
                     let r = receiver.take().unwrap();
@@ -321,8 +359,13 @@ fn run_async(c: &Case) -> String {
     if out == Out::Panic {
         fails.push("c08-panic");
     }
-    if virt > timeout + if paused { Duration::from_millis(2) } else { SLACK } {
+    if virt > timeout.saturating_add(if paused { Duration::from_millis(2) } else { SLACK })
+        || (c.rx == Rx::Late && virt > LATE + SLACK)
+    {
         fails.push("c08-timeout");
+    }
+    if out == Out::Panic && c.op == OpK::Send {
+        fails.push("c09-handback");
     }
     if out == Out::Flush(true) && c.rx == Rx::Stalled && c.prefill > 0 {
         fails.push("c07-blocking-true");
@@ -364,6 +407,22 @@ fn gen_blocking(rng: &mut Rng, tier: Tier, n: usize, ops: &[&str]) -> Vec<String
                         for t in timeouts {
                             all.push(format!("(bl {} {} {} {} {} {} {})", api, op, ctx, rx, cap, prefill, t));
                         }
+                    }
+                }
+            }
+        }
+    }
+    // extreme timeouts where the call genuinely waits and then succeeds because a late receiver drains: the
+    // original returns quickly whatever the timeout (Duration::MAX, u64::MAX seconds); zero returns at once
+    for api in ["sync", "tokio", "async"] {
+        for op in ops.iter().copied() {
+            for ctx in ["plain", "mt", "ct"] {
+                if api == "async" && ctx != "ct" {
+                    continue;
+                }
+                for (cap, prefill) in [(1usize, 1usize), (2, 2)] {
+                    for t in ["max", "maxsecs", "0", "3000"] {
+                        all.push(format!("(bl {} {} {} late {} {} {})", api, op, ctx, cap, prefill, t));
                     }
                 }
             }
